@@ -13,6 +13,11 @@ Mechanism A (universe export), everything decided by TLC:
 3. MC_TypeCompat, Part = "pipes": TLC enumerates 2-3 function pipelines wiring a pair directly / through an
    element-wise map / through a (partial) reduction / through unchecked edges, flag on and off, and prints the
    expected outcome; the harness builds real annotated functions and compares Pipeline([...]) (TypeError vs success).
+   NAMED shapes: TLC derives the edges from declared output names, rename steps and the MapSpecs of both functions.
+   SIBLING shapes (TypeCompat section 7): the consumer takes TWO array inputs (outputs of two mapped producers, two
+   outputs of one producer, or an output next to a pipeline input) in every writable combination of access modes
+   (`m[i, j]` / `m[:, j]` / `m[i, :]` / `m[:, :]` / no entry  x  `w[j]` / `w[:]` / no entry, ...); each edge has to be
+   judged by ITS OWN MapSpec entry.
 4. Calibration: every `assert [not] is_type_compatible(X, Y)` of tests/test_typing.py whose operands fall in the
    grammar is translated to records and sent to TLC (a generated ad-hoc module over TypeCompat); the reference must
    agree with all of them, otherwise the check is a machinery failure (exit 2).
@@ -326,7 +331,7 @@ CONSTANTS Part = "{part}" Tier = "{tier}" Shard = {shard} NShards = {n}
 INVARIANT {invs}
 """
 PAIR_INVS = "InvVerdictDomain InvReflexive InvAnyTop InvUnion InvCovariant InvTransitive Emit"
-PIPE_INVS = "InvPipeDomain InvPipeEdges InvNamed Emit"
+PIPE_INVS = "InvPipeDomain InvPipeEdges InvNamed InvSib Emit"
 
 ADHOC = """---- MODULE MC_TypeCompatAdhoc ----
 (* generated by pfverif/props/c16.py: verdicts of TypeCompat for explicitly listed pairs / pipelines *)
@@ -511,13 +516,11 @@ def _ms_text(ms: dict) -> str | None:
     return f"{side(ms['ins'])} -> {side(ms['outs'])}"
 
 
-def build_named(u: Userland, desc: dict, style: str) -> list:
-    """Real PipeFuncs for a NAMED description (TypeCompat section 6): declared output names, one return annotation per
-    position, rename steps (renames= / update_renames / update_scope) and user-written MapSpecs on both functions."""
+def _producer(u: Userland, prod: dict, fname: str, style: str):
+    """The real PipeFunc of a producer description [outs, anns, steps, hows, ms] (TypeCompat section 6b)."""
     from pipefunc import PipeFunc
 
     none = rec("NoAnn")
-    prod, cons = desc["prod"], desc["cons"]
     outs, anns = prod["outs"], prod["anns"]
     ret = anns[0] if len(outs) == 1 else rec("tuple", *anns)
     roots = [a["n"] for a in prod["ms"]["ins"]] or ["x"]
@@ -526,7 +529,7 @@ def build_named(u: Userland, desc: dict, style: str) -> list:
     ctor: dict = {}
     if hows and hows[0] == "ctor":
         ctor, steps, hows = steps[0], steps[1:], hows[1:]
-    f = PipeFunc(_fn(u, "f", [(n, none) for n in roots], ret, style), outs[0] if len(outs) == 1 else tuple(outs),
+    f = PipeFunc(_fn(u, fname, [(n, none) for n in roots], ret, style), outs[0] if len(outs) == 1 else tuple(outs),
                  renames=ctor or None, mapspec=_ms_text(prod["ms"]))
     for how, st in zip(hows, steps):
         if how == "update":
@@ -538,6 +541,13 @@ def build_named(u: Userland, desc: dict, style: str) -> list:
             f.update_scope(next(iter(scopes)), outputs=set(st))
         else:
             raise MachineryError(f"unknown rename step kind {how}")
+    return f
+
+
+def _consumer(u: Userland, cons: dict, out: str, style: str):
+    """The real PipeFunc of a consumer description [params, ms]."""
+    from pipefunc import PipeFunc
+
     params, scoped = [], {}
     for q in cons["params"]:
         py = q["n"]
@@ -545,14 +555,35 @@ def build_named(u: Userland, desc: dict, style: str) -> list:
             sc, py = py.split(".", 1)
             scoped.setdefault(sc, set()).add(py)
         params.append((py, q["t"]))
-    g = PipeFunc(_fn(u, "g", params, none, style), "z", mapspec=_ms_text(cons["ms"]))
+    g = PipeFunc(_fn(u, "g", params, rec("NoAnn"), style), out, mapspec=_ms_text(cons["ms"]))
     for sc, names in scoped.items():
         g.update_scope(sc, inputs=names)
-    connected = [n for n in g.parameters if n in (f.output_name if isinstance(f.output_name, tuple) else (f.output_name,))]
-    if len(connected) != len(desc["edges"]) or [q["n"] for q in cons["params"]] != list(g.parameters):
-        raise MachineryError(f"named description not realised: outputs {f.output_name}, parameters {g.parameters}, "
+    return g
+
+
+def build_named(u: Userland, desc: dict, style: str) -> list:
+    """Real PipeFuncs for a NAMED description (TypeCompat section 6): declared output names, one return annotation per
+    position, rename steps (renames= / update_renames / update_scope) and user-written MapSpecs on both functions.
+    A SIBLING description (section 7) has several producers (`prods`) feeding one consumer."""
+    net = "prods" in desc
+    prods = desc["prods"] if net else [desc["prod"]]
+    cons = desc["cons"]
+    fs = [_producer(u, prod, "f" if len(prods) == 1 else f"f{k}", style) for k, prod in enumerate(prods)]
+    outs = cons["ms"]["outs"]
+    g = _consumer(u, cons, outs[0]["n"] if outs else "z", style)
+    produced = [n for f in fs for n in (f.output_name if isinstance(f.output_name, tuple) else (f.output_name,))]
+    connected = [n for n in g.parameters if n in produced]
+    realised = sorted(connected) == sorted(e["n"] for e in desc["edges"]) if net else len(connected) == len(desc["edges"])
+    if not realised or [q["n"] for q in cons["params"]] != list(g.parameters) or len(set(produced)) != len(produced):
+        raise MachineryError(f"named description not realised: outputs {produced}, parameters {g.parameters}, "
                              f"{len(desc['edges'])} edges expected")
-    return [f, g]
+    if net:     # the MapSpecs the code holds are the ones the specification wrote
+        for f, prod in zip(fs, prods):
+            if str(f.mapspec) != _ms_text(prod["ms"]):
+                raise MachineryError(f"producer MapSpec {f.mapspec} is not {_ms_text(prod['ms'])}")
+        if (str(g.mapspec) if g.mapspec else None) != _ms_text(cons["ms"]):
+            raise MachineryError(f"consumer MapSpec {g.mapspec} is not {_ms_text(cons['ms'])}")
+    return [*fs, g]
 
 
 def construct(desc: dict, style: str = "typing") -> tuple[str, str]:
@@ -560,7 +591,7 @@ def construct(desc: dict, style: str = "typing") -> tuple[str, str]:
     from pipefunc import Pipeline
 
     u = userland()
-    if "prod" in desc:
+    if "prod" in desc or "prods" in desc:
         funcs = build_named(u, desc, style)
     else:
         funcs = build_functions(u, desc["shape"], desc["edges"], style)
@@ -603,12 +634,15 @@ def pipe_sig(desc: dict, style: str, observed: str, expect: str) -> dict:
             src = rec("array", src)
         for k, v in features(src, e["c"]).items():
             f[k] = f.get(k, False) or v
-        if (desc["shape"] in ("multi2", "multi2x") or desc["shape"].startswith("ren_")) and e["p"]["k"] == "None":  # tuple[None, int]
+        if (desc["shape"] in ("multi2", "multi2x") or desc["shape"].startswith(("ren_", "sib2_"))) and e["p"]["k"] == "None":  # tuple[None, int]
             f["none_arg_of_builtin_generic"] = True
     reduced_annotated = any(e["via"] in ("reduce", "preduce") and e["p"]["k"] == "ann" for e in desc["edges"])
     return {"check": "pipeline", "style": style, "shape": desc["shape"], "validate": desc["validate"],
             "observed": observed, "required": expect, "reduced_producer_annotated": reduced_annotated,
             "renamed_outputs": desc["shape"].startswith("ren_"), "consumer_own_mapspec": desc["shape"].endswith("_other2"),
+            # sibling shapes: the consumer's MapSpec has several entries; how each produced input is taken
+            "consumer_array_inputs": len(desc["cons"]["ms"]["ins"]) if "prods" in desc else -1,
+            "vias": "+".join(sorted(e["via"] for e in desc["edges"])),
             **f}
 
 
@@ -777,6 +811,7 @@ def check_pipes(ctx: Ctx, descs: list[dict], corrupt: int | None = None, paralle
                               f"TypeCompat says {expect} ({msg})",
                               {"kind": "pipe", "shape": d["shape"], "edges": d["edges"], "validate": d["validate"],
                                **({"prod": d["prod"], "cons": d["cons"]} if "prod" in d else {}),
+                               **({"prods": d["prods"], "cons": d["cons"]} if "prods" in d else {}),
                                "p": d.get("p", 0), "c": d.get("c", 0), "style": style, "observed": observed,
                                "required": expect, "message": msg})
     return bad
@@ -791,9 +826,12 @@ def run(ctx: Ctx) -> None:
                 "universe (quick: depth <= 1, thorough: depth <= 2 plus six depth-3 nestings) exported by TLC from MC_TypeCompat with the verdict "
                 "yes/no/either, plus seeded random pairs of depth <= 3 decided by TLC through a generated ad-hoc module; "
                 "non-trivial = the two annotations differ, both exist and the required one is not Any. "
-                "pipeline case = (shape, annotations on its edges, validate flag, style) for 20 shapes of 2-3 functions (12 with "
+                "pipeline case = (shape, annotations on its edges, validate flag, style) for 63 shapes of 2-3 functions (12 with "
                 "listed edges, 8 NAMED ones whose edges TLC derives from declared output names + rename steps [renames=, "
-                "update_renames, update_scope, swap] and from the user-written MapSpecs of both functions); "
+                "update_renames, update_scope, swap] and from the user-written MapSpecs of both functions, 43 SIBLING ones "
+                "whose consumer takes two array inputs -- outputs of two mapped producers, two outputs of one producer, an "
+                "output next to a pipeline input -- in every writable combination of access modes [indexed / sliced on either "
+                "axis / fully sliced / no entry], the pair under test on either input); "
                 "non-trivial = validation on and some checked edge joins two different explicit annotations")
     ctx.assumptions = [
         "TLC and the record <-> source-text translation of annotations are trusted (round-trip self-test on every run)",
@@ -882,6 +920,23 @@ def run(ctx: Ctx) -> None:
                      f"victim={pipes[victim]['shape']} {show(pipes[victim]['edges'][0]['p'])} -> "
                      f"{show(pipes[victim]['edges'][0]['c'])} expect={pipes[victim]['expect']} "
                      f"reported={sorted(set(got) - set(base))}")
+    #    the same on a SIBLING shape whose edge under test is element-wise next to a sliced sibling entry
+    sibp = [k for k in range(len(pipes)) if "prods" in pipes[k] and pipes[k]["validate"] and pipes[k]["expect"] != "either"
+            and k not in set(badp) and sorted(e["via"] for e in pipes[k]["edges"]) == ["emap", "preduce"]
+            and all(e["p"]["k"] != "NoAnn" and e["c"]["k"] != "NoAnn" for e in pipes[k]["edges"])]
+    if sibp:
+        victim = sibp[len(sibp) // 2]
+        lo = max(0, victim - 20)
+        window = pipes[lo: victim + 20]
+        got = check_pipes(ctx, window, corrupt=victim - lo, parallel=False)
+        base = check_pipes(ctx, window, corrupt=10**9, parallel=False)
+        ctx.selftest("sibling pipeline outcome corruption (one exported outcome flipped)",
+                     sorted(set(got) - set(base)) == [victim - lo],
+                     f"victim={pipes[victim]['shape']} "
+                     + "; ".join(f"{show(e['p'])} -{e['via']}-> {show(e['c'])}" for e in pipes[victim]["edges"])
+                     + f" expect={pipes[victim]['expect']} reported={sorted(set(got) - set(base))}")
+    ctx.extra["sibling_shapes"] = {"shapes": len({d["shape"] for d in pipes if "prods" in d}),
+                                   "pipelines": sum(1 for d in pipes if "prods" in d)}
     for k in (len(pipes) // 3, 2 * len(pipes) // 3):
         d = pipes[k]
         ctx.sample({"shape": d["shape"], "validate": d["validate"], "expect": d["expect"],
@@ -941,6 +996,8 @@ def replay(rep: dict) -> int:
             desc = {"shape": w["shape"], "edges": w["edges"], "validate": w["validate"], "p": w.get("p", 0), "c": w.get("c", 0)}
             if "prod" in w:
                 desc.update(prod=w["prod"], cons=w["cons"])
+            if "prods" in w:
+                desc.update(prods=w["prods"], cons=w["cons"])
             v = adhoc_verdicts(ctx, "replay", [], [desc])[1][0]
             observed, msg = construct(desc, w["style"])
             es = "; ".join(f"{show(e['p'])} -{e['via']}-> {show(e['c'])}" for e in w["edges"])
